@@ -72,8 +72,14 @@ Fixpoint blocks_from (l : list txn) : bool :=
 Definition failed_blocks_later_ok (w : world) : bool := blocks_from (w_txs w).
 
 (* Consistency, committed part: the change the committed revision names is in the committed values (as read) *)
-Definition sub_vals (tv m : vals) : bool :=
-  forallb (fun kv => match vget (fst kv) m with Some v => pval_eqb v (snd kv) | None => false end) tv.
+(* the map holds the change's value for a path: the same entry; for a delete also any tomb-stone at the path or a
+   tomb-stone of an ancestor that absorbed it (the store prunes entries below a tomb-stone) *)
+Definition holds_val (m : vals) (kv : path * pval) : bool :=
+  match vget (fst kv) m with
+  | Some v => pval_eqb v (snd kv) || (pv_del v && pv_del (snd kv))
+  | None => pv_del (snd kv) && existsb (fun e => pv_del (snd e) && is_below (fst kv) (fst e)) m
+  end.
+Definition sub_vals (tv m : vals) : bool := forallb (holds_val m) tv.
 
 Definition consistency_committed_ok (w : world) : bool :=
   match w_cfg w with
